@@ -141,7 +141,13 @@ class History:
                 warnings.simplefilter("ignore")
                 if op == "shift":
                     j = int(rng.integers(self.npt))
-                    m.shift_x_base(self.itp.point(j).copy(), self.opts)
+                    new_base = self.itp.point(j).copy()
+                    if rng.random() < 0.4:
+                        # any point of the region, not an interpolation point
+                        new_base = self.itp.x_base + rng.standard_normal(
+                            self.n) * self.radius
+                        j = -1
+                    m.shift_x_base(new_base, self.opts)
                     d = {"op": "shift", "to": j}
                 elif op == "reset":
                     m.reset_models()
